@@ -118,7 +118,7 @@ def mutate(rng, base, family):
     elif family == "pti-mismatch":
         if spec.get("type") != "hybrid":
             return None
-        mut["how"] = str(rng.choice(["copy", "missing"]))
+        mut["how"] = str(rng.choice(["copy", "deepcopy", "missing"]))        # deepcopy keeps the uid, a rebuilt copy only the name
     elif family == "bad-rating":
         pool = [c for c in el if c["kind"] in ("generator", "other_load")] + [c for c in spec.get("mechanical", []) if c["kind"] == "main_engine"]
         if not pool:
@@ -192,6 +192,9 @@ def attempt(case):
                     if mut["how"] == "copy":
                         ref = next(e for e in spec["electric"] if e["name"] == c["name"])
                         obj = plants.build_electric_component(ref)
+                        copies.append((c["name"], obj))
+                    elif mut["how"] == "deepcopy":
+                        obj = copy.deepcopy(obj)
                         copies.append((c["name"], obj))
             else:
                 obj = plants.build_mechanical_component(c)
